@@ -39,6 +39,18 @@ def generate(rng, tier, mult):
                               "status": st, "location": loc.hex(), "anf_idx": 8, "malformed": True, "n_loc": 1, "followed": False}],
                     "stopped": 0, "method": "GET", "origin_form": True}
             out.append({"ops": ops, "meta": meta})
+    # a redirected request that request analysis refuses (the POST's own Transfer-Encoding: chunked is inherited by the GET it is rewritten
+    # to): whatever the caller retries on that flow, a head that is written must be complete -- request line and Host of the resolved
+    # target (seeded change C14-18: analysis marked as done although it failed, the retry wrote a head without Host)
+    for st in (301, 302, 303):
+        for loc in (b"/next?x=1", b"http://b.test/other"):
+            for retry in (["write_head #100000", "write_head #100000"], ["headers_map", "write_head #100000"], ["write_head #5", "write_head #100000", "write_head #100000"]):
+                ops = ["new " + request_args("POST", "1.1", "http", "a.test", "/start", [(b"transfer-encoding", b"chunked")]), "proceed", "write_head #100000", "proceed",
+                       "write_body %s #100" % hx(b"hi"), "write_body x #100", "proceed",
+                       "raw_try_response %s" % hx(render_response_head("1.1", st, b"F", [(b"Location", loc), (b"Content-Length", b"0")])),
+                       "proceed", "as_new_flow never", "follow", "q_uri", "proceed"] + retry
+                out.append({"ops": ops, "meta": {"kind": "refused-retry", "n_retry": len(retry), "host": (b"b.test" if loc.startswith(b"http") else b"a.test").hex(),
+                                                 "hops": []}})
     return out
 
 
@@ -90,6 +102,16 @@ def oracle(script, obs):
     fails = []
     if any(o == "panic" for o in obs):
         return ["panic"]
+    if meta.get("kind") == "refused-retry":
+        for op, o in list(zip(script["ops"], obs))[-meta["n_retry"]:]:
+            if op.startswith("write_head") and o.startswith("ok "):
+                data = parse_head_write(o)[1]
+                if data:
+                    rl, hs = R.parse_head(data) if data.endswith(b"\r\n\r\n") else ((b"", b"", b""), [])
+                    hosts = [v for k, v in hs if k == b"host"]
+                    if hosts != [bytes.fromhex(meta["host"])]:
+                        return ["redirected request written after a refused attempt: Host %r, expected %r (head %r)" % (hosts, bytes.fromhex(meta["host"]), data[:80])]
+        return []
     for h in meta["hops"]:
         if h["head_idx"] >= len(obs):
             break
@@ -137,7 +159,7 @@ def oracle(script, obs):
 
 
 def nontrivial(script, obs):
-    return any(h.get("followed") for h in script["meta"]["hops"])
+    return script["meta"].get("kind") == "refused-retry" or any(h.get("followed") for h in script["meta"]["hops"])
 
 
 def known_still_fails(cls, impl):
